@@ -91,7 +91,7 @@ PLAN = {
              "temporaries hide the provider state from a Verus postcondition; DeviceEeprom::write_word's retry bound (<= 21 attempts) not yet under contract",
     ),
     "C15": dict(
-        verus=["sdo"], kani=["@wire"], level="proof",
+        verus=["sdo"], kani=[], level="proof",
         claim="Coe::sdo_write, sdo_read, sdo_read_expedited and the request constructors, verbatim (Verus, unbounded, device = arbitrary reply): "
               "sdo_write exchanges an expedited download carrying exactly the value's bytes zero padded to 4, size = 4-len, the right index / sub-index / "
               "complete-access flag and a counter in 1..=7 (values > 4 bytes are refused); sdo_read sends an upload for exactly (index, sub-index) and "
